@@ -20,6 +20,13 @@
 //                         size field can hold), and the slot count of StackNode.links
 //                         plus new_leaf with a 9-bit symbol / with external tokens (must stay on the heap)
 //        -> "bits inline=<0|1> pb=<max> pr=<max> pc=<max> sb=<max> la=<max> links=<slots> maxlinks=<MAX_LINK_COUNT> sym300inline=<0|1> sym300rb=<sym> extinline=<0|1>"
+//   cr <n_old> s e … <n_new> s e …    ts_range_array_get_changed_ranges on two range lists (points = (0, byte)),
+//                         both arrays placed flush against an inaccessible page (guard allocator)
+//        -> "cr fault=<0|1> kind=<oob|uaf|-> off=<bytes past the block> acc_old=<0|1> acc_new=<0|1> out=s-e,s-e"
+//           (acc_* : ts_lexer_set_included_ranges accepts the list — the input is conforming iff both are 1)
+//   lx <hexdoc> <n> s e … | op …       the real Lexer on a document with included ranges; ops: R<byte> (ts_lexer_reset),
+//                         S (ts_lexer_start), C (get_column), A / K (advance / skip), M (mark_end), E (eof), F (ts_lexer_finish)
+//        -> "lx fault=<0|1> kind=.. off=.. acc=<0|1> trace=init:<idx>/<count>/<chunk?>,<op>:<idx>/<count>/<chunk?>,…"
 //   fuzz <seed> <iters>   (only useful with -DTSV_PARSER_C: adversarial API use for sanitizer builds)
 #include TSV_REPO_LIB_C
 #include <stdio.h>
@@ -38,12 +45,94 @@ static void print_arr(U32Array *a) {
   printf("\n");
 }
 
+// ---- guard allocator: every block ends flush (up to 8-byte alignment) against a PROT_NONE page, freed
+// blocks stay mapped PROT_NONE: a read past the end / through a dangling pointer faults deterministically.
+// Under ASan (thorough-tier search build) it is switched off: ASan reports the access itself.
+#if defined(__SANITIZE_ADDRESS__)
+#define TSV_ASAN 1
+#elif defined(__has_feature)
+#if __has_feature(address_sanitizer)
+#define TSV_ASAN 1
+#endif
+#endif
+#include <sys/mman.h>
+#include <signal.h>
+#include <setjmp.h>
+typedef struct { char *base; size_t total; char *user; size_t n; int live; } GBlock;
+static GBlock gblocks[8192]; static unsigned ngblocks = 0;
+static int guard_mode = 0;
+static sigjmp_buf guard_jmp; static volatile int guard_armed = 0;
+static volatile long guard_off = 0; static volatile int guard_kind = 0; // 1 = out of bounds, 2 = use after free
+static GBlock *g_find(void *p) { for (unsigned i = ngblocks; i-- > 0;) if (gblocks[i].user == (char *)p && gblocks[i].live) return &gblocks[i]; return NULL; }
+static void *g_alloc(size_t n, int fill) {
+  size_t pg = 4096, body = (n + 7) & ~(size_t)7, pages = (body + pg - 1) / pg;
+  if (!pages) pages = 1;
+  if (ngblocks >= 8192) return malloc(n);
+  char *base = mmap(NULL, (pages + 1) * pg, PROT_READ | PROT_WRITE, MAP_PRIVATE | MAP_ANONYMOUS, -1, 0);
+  if (base == MAP_FAILED) return NULL;
+  mprotect(base + pages * pg, pg, PROT_NONE);
+  char *user = base + pages * pg - body;
+  memset(user, fill, body);
+  gblocks[ngblocks++] = (GBlock) {base, (pages + 1) * pg, user, n, 1};
+  return user;
+}
+static void g_free(GBlock *b) { b->live = 0; mprotect(b->base, b->total, PROT_NONE); }
+static void guard_handler(int sig, siginfo_t *si, void *ctx) {
+  (void)sig; (void)ctx;
+  char *a = (char *)si->si_addr;
+  for (unsigned i = 0; i < ngblocks; i++) {
+    if (a >= gblocks[i].base && a < gblocks[i].base + gblocks[i].total) {
+      guard_kind = gblocks[i].live ? 1 : 2;
+      guard_off = (long)(a - (gblocks[i].user + gblocks[i].n));
+      if (guard_armed) siglongjmp(guard_jmp, 1);
+    }
+  }
+  _exit(139);
+}
+static void guard_install(void) {
+  struct sigaction sa;
+  memset(&sa, 0, sizeof sa);
+  sa.sa_sigaction = guard_handler;
+  sa.sa_flags = SA_SIGINFO | SA_NODEFER;
+  sigaction(SIGSEGV, &sa, NULL);
+  sigaction(SIGBUS, &sa, NULL);
+}
+
 static long n_mallocs = 0, n_frees = 0;
-static void *cm_malloc(size_t n) { n_mallocs++; return malloc(n); }
-static void *cm_calloc(size_t a, size_t b) { n_mallocs++; return calloc(a, b); }
-static void *cm_realloc(void *p, size_t n) { if (!p) n_mallocs++; return realloc(p, n); }
 static int cm_keep = 0; // protocols that identify objects by address never give memory back (no address reuse)
-static void cm_free(void *p) { if (p) n_frees++; if (!cm_keep) free(p); }
+static void *cm_malloc(size_t n) { n_mallocs++; return guard_mode ? g_alloc(n, 0xA5) : malloc(n); }
+static void *cm_calloc(size_t a, size_t b) { n_mallocs++; return guard_mode ? g_alloc(a * b, 0) : calloc(a, b); }
+static void cm_free(void *p) {
+  if (p) n_frees++;
+  GBlock *b = ngblocks ? g_find(p) : NULL;
+  if (b) { g_free(b); return; }
+  if (!cm_keep) free(p);
+}
+static void *cm_realloc(void *p, size_t n) {
+  if (!p) return cm_malloc(n);
+  GBlock *b = ngblocks ? g_find(p) : NULL;
+  if (!b && !guard_mode) return realloc(p, n);
+  if (!b) return realloc(p, n);
+  void *q = g_alloc(n, 0xA5);
+  memcpy(q, p, b->n < n ? b->n : n);
+  g_free(b);
+  return q;
+}
+
+// ---- the real Lexer on a document (lx protocol)
+static const char *lx_doc; static uint32_t lx_len;
+static const char *lx_read(void *payload, uint32_t byte_index, TSPoint position, uint32_t *bytes_read) {
+  (void)payload; (void)position;
+  if (byte_index >= lx_len) { *bytes_read = 0; return ""; }
+  *bytes_read = lx_len - byte_index;
+  return lx_doc + byte_index;
+}
+static TSPoint lx_point(uint32_t byte) {
+  TSPoint p = {0, 0};
+  for (uint32_t i = 0; i < byte && i < lx_len; i++) { if (lx_doc[i] == '\n') { p.row++; p.column = 0; } else p.column++; }
+  if (byte > lx_len) p.column += byte - lx_len;
+  return p;
+}
 
 #define MAXOBJ 4096
 static void *objs[MAXOBJ]; static unsigned nobjs = 0;
@@ -150,6 +239,9 @@ int main(void) {
   StackNode *gnodes[256]; unsigned ngnodes = 0;
   StackNodeArray gpool = array_new();
   ts_set_allocator(cm_malloc, cm_calloc, cm_realloc, cm_free);
+#ifndef TSV_ASAN
+  guard_install();
+#endif
   while (fgets(line, sizeof line, stdin)) {
     char *tok = strtok(line, " \n");
     if (!tok) continue;
@@ -171,6 +263,101 @@ int main(void) {
         default: break;
       }
       print_arr(&a);
+    } else if (!strcmp(tok, "cr")) {
+      uint32_t v[512]; unsigned n = 0; char *t;
+      while ((t = strtok(NULL, " \n")) && n < 512) v[n++] = (uint32_t)strtoul(t, NULL, 10);
+      unsigned no = n ? v[0] : 0;
+      if (n < 1 + 2 * no + 1) { printf("cr bad-line\n"); fflush(stdout); continue; }
+      unsigned nn = v[1 + 2 * no];
+      if (n < 2 + 2 * no + 2 * nn) { printf("cr bad-line\n"); fflush(stdout); continue; }
+      int fault = 0, acc_old = 0, acc_new = 0;
+      char outbuf[8192]; size_t ol = 0; outbuf[0] = 0;
+#ifndef TSV_ASAN
+      guard_mode = 1;
+#endif
+      if (sigsetjmp(guard_jmp, 1) == 0) {
+        guard_armed = 1;
+        TSRange *o = ts_malloc((no ? no : 1) * sizeof(TSRange)), *w = ts_malloc((nn ? nn : 1) * sizeof(TSRange));
+        // the arrays have EXACTLY no / nn elements when non-empty (the block ends with the last element)
+        if (no) { ts_free(o); o = ts_malloc(no * sizeof(TSRange)); }
+        if (nn) { ts_free(w); w = ts_malloc(nn * sizeof(TSRange)); }
+        for (unsigned i = 0; i < no; i++) o[i] = (TSRange) {{0, v[1 + 2 * i]}, {0, v[2 + 2 * i]}, v[1 + 2 * i], v[2 + 2 * i]};
+        for (unsigned i = 0; i < nn; i++) w[i] = (TSRange) {{0, v[2 + 2 * no + 2 * i]}, {0, v[3 + 2 * no + 2 * i]}, v[2 + 2 * no + 2 * i], v[3 + 2 * no + 2 * i]};
+        Lexer lxr;
+        ts_lexer_init(&lxr);
+        acc_old = no ? ts_lexer_set_included_ranges(&lxr, o, no) : 0;
+        acc_new = nn ? ts_lexer_set_included_ranges(&lxr, w, nn) : 0;
+        ts_lexer_delete(&lxr);
+        TSRangeArray diff = array_new();
+        ts_range_array_get_changed_ranges(o, no, w, nn, &diff);
+        for (unsigned i = 0; i < diff.size && ol + 40 < sizeof outbuf; i++)
+          ol += (size_t)snprintf(outbuf + ol, sizeof outbuf - ol, "%s%u-%u", i ? "," : "", array_get(&diff, i)->start_byte, array_get(&diff, i)->end_byte);
+        array_delete(&diff);
+        ts_free(o);
+        ts_free(w);
+      } else {
+        fault = 1;
+      }
+      guard_armed = 0;
+      guard_mode = 0;
+      printf("cr fault=%d kind=%s off=%ld acc_old=%d acc_new=%d out=%s\n", fault, fault ? (guard_kind == 2 ? "uaf" : "oob") : "-", fault ? guard_off : 0, acc_old, acc_new, outbuf);
+    } else if (!strcmp(tok, "lx")) {
+      static char doc[4096];
+      char *hex = strtok(NULL, " \n"), *t;
+      if (!hex) continue;
+      uint32_t dl = 0;
+      if (strcmp(hex, "-")) for (; hex[2 * dl] && hex[2 * dl + 1] && dl < sizeof doc - 1; dl++) { unsigned b; sscanf(hex + 2 * dl, "%2x", &b); doc[dl] = (char)b; }
+      lx_doc = doc; lx_len = dl;
+      t = strtok(NULL, " \n");
+      unsigned nr = t ? (unsigned)strtoul(t, NULL, 10) : 0;
+      uint32_t rv[128];
+      for (unsigned i = 0; i < 2 * nr && i < 128; i++) { t = strtok(NULL, " \n"); rv[i] = t ? (uint32_t)strtoul(t, NULL, 10) : 0; }
+      t = strtok(NULL, " \n"); // the "|"
+      int fault = 0, acc = 0;
+      static char tr[16384]; static volatile size_t tl; tl = 0; tr[0] = 0; // static: the trace survives the longjmp
+#ifndef TSV_ASAN
+      guard_mode = 1;
+#endif
+      static Lexer lxr; // static: the state survives the longjmp
+      if (sigsetjmp(guard_jmp, 1) == 0) {
+        guard_armed = 1;
+        ts_lexer_init(&lxr);
+        TSInput in = {NULL, lx_read, TSInputEncodingUTF8, NULL};
+        ts_lexer_set_input(&lxr, in);
+        TSRange rs[64];
+        for (unsigned i = 0; i < nr && i < 64; i++) rs[i] = (TSRange) {lx_point(rv[2 * i]), lx_point(rv[2 * i + 1]), rv[2 * i], rv[2 * i + 1]};
+        acc = nr ? ts_lexer_set_included_ranges(&lxr, rs, nr) : 1;
+#define LX_STATE(name) tl += (size_t)snprintf(tr + tl, sizeof tr - tl, "%s%s:%u/%u/%d", tl ? "," : "", name, lxr.current_included_range_index, lxr.included_range_count, lxr.chunk != NULL)
+        LX_STATE("init");
+        while (acc && (t = strtok(NULL, " \n")) && tl + 64 < sizeof tr) {
+          char nm[2] = {t[0], 0};
+          // announce the op first: a fault is attributed to it
+          size_t mark = tl;
+          tl += (size_t)snprintf(tr + tl, sizeof tr - tl, ",%s:", nm);
+          switch (t[0]) {
+            case 'R': { uint32_t b = (uint32_t)strtoul(t + 1, NULL, 10); Length pos = {b, lx_point(b)}; ts_lexer_reset(&lxr, pos); break; }
+            case 'S': ts_lexer_start(&lxr); break;
+            case 'C': (void)lxr.data.get_column(&lxr.data); break;
+            case 'A': lxr.data.advance(&lxr.data, false); break;
+            case 'K': lxr.data.advance(&lxr.data, true); break;
+            case 'M': lxr.data.mark_end(&lxr.data); break;
+            case 'E': (void)lxr.data.eof(&lxr.data); break;
+            case 'F': { uint32_t e = 0; ts_lexer_finish(&lxr, &e); break; }
+            default: break;
+          }
+          tl = mark;
+          tr[tl] = 0;
+          LX_STATE(nm);
+        }
+        ts_lexer_delete(&lxr);
+      } else {
+        fault = 1;
+        tl = strlen(tr);
+        tl += (size_t)snprintf(tr + tl, sizeof tr - tl, "FAULT");
+      }
+      guard_armed = 0;
+      guard_mode = 0;
+      printf("lx fault=%d kind=%s off=%ld acc=%d trace=%s\n", fault, fault ? (guard_kind == 2 ? "uaf" : "oob") : "-", fault ? guard_off : 0, acc, tr);
     } else if (!strcmp(tok, "bits")) {
       Subtree ones;
       memset(&ones, 0xFF, sizeof ones);
